@@ -18,6 +18,21 @@
 //!    follow-up step in {none, RequestVote(t,B), RequestVote(t,A), AppendEntries heartbeat, AppendEntries with 1
 //!    entry} x EVERY byte truncation >= end of the vote record; restart with `with_wal`. Thorough: chains
 //!    of 3 rounds of RequestVote(term 1..=2, A|B) with 5 cut classes, restart between rounds.
+//!  * restart.after_compaction_conflict (quick and thorough): a follower acknowledges entries 1..=6 of term 1
+//!    from leader A (leader_commit = s), compacts its in-memory log through the public snapshot path
+//!    (`finalize_to(s)`, `create_snapshot`, `truncate_log` with `snapshot_trailing_logs` = t, so that
+//!    log_base_index = s - t > 0), optionally grants its term-2 vote to B, then accepts from leader B (term 2)
+//!    AppendEntries{prev (k-1, 1), m entries of term 2 starting at index k} that conflict with its uncommitted
+//!    entries k..=6.  Domain: (s,t,k,m,voted) in {(4,0|1,5|6,1|2,no|yes)} + {(2|3, 0|1, 6, 1, no)} (thorough:
+//!    s in 2..=4, t in 0..=1, k in s+1..=6, m in 1..=2, voted no|yes) x EVERY byte cut of the WAL tail written after
+//!    the acknowledgement of 1..=6.  Ghost: the sequence of legitimate views (term, vote, [(index, term)]):
+//!    after the ack of 1..=6; after the vote; term raised; conflicting suffix k..=6 dropped; k' appended; (k+1)'
+//!    appended.  Clause: the node restarted with `with_wal` from the cut file shows a view of that sequence not
+//!    older than the last acknowledged step (every acknowledged entry the new leader did not replace is held
+//!    with its term, the replaced ones carry the new term, nothing the snapshot covered is lost, no stale
+//!    entry survives behind the conflict point), a vote granted to B is never given to A, and a second restart
+//!    from the same file shows the same view; at record boundaries, boundary + 1 and end - 1 the restarted node
+//!    also acknowledges one more entry from B and a third restart must show the view extended by it.
 use crate::fw::{Report, Tier};
 use serde_json::{json, Value};
 use std::collections::BTreeMap;
@@ -32,6 +47,7 @@ const OB_TV: &str = "C10.fold.term_vote";
 const OB_LOG: &str = "C10.fold.log";
 const OB_PERSIST: &str = "C10.persist.before_reply";
 const OB_RESTART: &str = "C10.restart.vote";
+const OB_COMPACT: &str = "C10.restart.after_compaction_conflict";
 
 struct Out { ob: &'static str, ok: bool, detail: String }
 fn out(ob: &'static str, ok: bool, detail: String) -> Out { Out { ob, ok, detail } }
@@ -350,6 +366,164 @@ fn eval_term_durable(dir: &Path, own_log: bool, rv_term: u64, rel: u8, emb: u8) 
     out(OB_TERMDUR, back >= acted, format!("node (term {before}, log {}) answered RequestVote(term {rv_term}, log rel {rel}, emb {emb}) with {resp:?}: acted on term {acted}, restarted from the WAL with term {back}", if own_log { "[(1,1)]" } else { "[]" }))
 }
 
+
+// ---------- restart after log compaction and a conflict truncation ----------
+
+#[derive(Clone, PartialEq, Debug)]
+struct NodeView { term: u64, vote: Option<String>, log: Vec<(u64, u64)> }
+
+fn node_cfg(path: &Path, trailing: usize) -> std::io::Result<RaftNode> {
+    let tr: Arc<dyn Transport> = Arc::new(MemoryTransport::new("n".to_string()));
+    let cfg = RaftConfig { snapshot_trailing_logs: trailing, ..RaftConfig::default() };
+    RaftNode::with_wal("n".to_string(), vec!["A".to_string(), "B".to_string()], tr, cfg, path)
+}
+
+fn entry_at(term: u64, index: u64) -> LogEntry {
+    let mut b = Block::genesis("A".to_string());
+    b.header.timestamp = 0;
+    LogEntry::new(term, index, b)
+}
+
+fn append_from(n: &RaftNode, leader: &str, term: u64, prev: (u64, u64), entries: Vec<LogEntry>, commit: u64) -> Option<(u64, bool, u64)> {
+    let ae = AppendEntries { term, leader_id: leader.to_string(), prev_log_index: prev.0, prev_log_term: prev.1, entries, leader_commit: commit, block_embedding: None };
+    match n.handle_message(&leader.to_string(), &Message::AppendEntries(ae)) {
+        Some(Message::AppendEntriesResponse(r)) => Some((r.term, r.success, r.match_index)),
+        _ => None,
+    }
+}
+
+/// the whole durable view of a node: term, the vote recorded for that term (read from the WAL file the node
+/// runs on), and every log entry (index, term) it holds (`get_entries_for_follower` of a non-leader = whole log)
+fn node_view(n: &RaftNode, wal_file: &Path, scratch: &Path) -> Result<NodeView, String> {
+    std::fs::copy(wal_file, scratch).map_err(|e| e.to_string())?;
+    let st = RaftWal::open(scratch).and_then(|x| RaftRecoveryState::from_wal(&x)).map_err(|e| format!("from_wal: {e}"))?;
+    let term = n.current_term();
+    let vote = if st.current_term == term { st.voted_for } else { None };
+    let (_, _, entries, _) = n.get_entries_for_follower(&"A".to_string());
+    if entries.len() != n.log_length() { return Err(format!("log view has {} entries, log_length() = {}", entries.len(), n.log_length())); }
+    Ok(NodeView { term, vote, log: entries.iter().map(|e| (e.index, e.term)).collect() })
+}
+
+struct CompactRun {
+    bytes: Vec<u8>,
+    /// end of the records of the acknowledged entries 1..=6 (first byte of the tail)
+    base_end: usize,
+    /// legitimate views in order, with the file offset at which the step was acknowledged (None: intermediate)
+    ghost: Vec<(NodeView, Option<usize>)>,
+    compacted: bool,
+}
+
+const ACKED: u64 = 6;
+
+fn run_compact(dir: &Path, s: u64, t: usize, k: u64, m: u64, voted: bool) -> Result<CompactRun, String> {
+    let p = dir.join("cc.wal");
+    let _ = std::fs::remove_file(&p);
+    let flen = |p: &Path| std::fs::metadata(p).map(|x| x.len() as usize).unwrap_or(0);
+    let n = node_cfg(&p, t).map_err(|e| format!("with_wal: {e}"))?;
+    // leader A (term 1) replicates 1..=6, commit index s
+    let r = append_from(&n, "A", 1, (0, 0), (1..=ACKED).map(|i| entry_at(1, i)).collect(), s);
+    if r != Some((1, true, ACKED)) { return Err(format!("AppendEntries(term 1, entries 1..=6) -> {r:?}, expected acknowledgement of 6")); }
+    let base_end = flen(&p);
+    let mut log: Vec<(u64, u64)> = (1..=ACKED).map(|i| (i, 1)).collect();
+    let mut ghost = vec![(NodeView { term: 1, vote: None, log: log.clone() }, Some(base_end))];
+    // compaction through the public snapshot path
+    n.finalize_to(s).map_err(|e| format!("finalize_to({s}): {e}"))?;
+    let (meta, _data) = n.create_snapshot().map_err(|e| format!("create_snapshot: {e}"))?;
+    if meta.last_included_index != s { return Err(format!("snapshot covers {} expected {s}", meta.last_included_index)); }
+    n.truncate_log(&meta).map_err(|e| format!("truncate_log: {e}"))?;
+    let compacted = n.log_length() < ACKED as usize;
+    if flen(&p) != base_end { return Err("compaction wrote to the WAL (harness assumption: memory only)".into()); }
+    if voted {
+        match request_vote(&n, 2, "B") { Some((2, true)) => {}, other => return Err(format!("RequestVote(2, B) -> {other:?}, expected a grant")) }
+        ghost.push((NodeView { term: 2, vote: Some("B".into()), log: log.clone() }, Some(flen(&p))));
+    }
+    // leader B (term 2): entries k.. of term 2 conflict with the uncommitted k..=6 of term 1
+    let r = append_from(&n, "B", 2, (k - 1, 1), (k..k + m).map(|i| entry_at(2, i)).collect(), s);
+    if r != Some((2, true, k + m - 1)) { return Err(format!("AppendEntries(term 2, prev ({},1), {m} entries from {k}) -> {r:?}, expected acknowledgement of {}", k - 1, k + m - 1)); }
+    let vote: Option<String> = if voted { Some("B".into()) } else { None };
+    if !voted { ghost.push((NodeView { term: 2, vote: None, log: log.clone() }, None)); }
+    log.truncate((k - 1) as usize);
+    ghost.push((NodeView { term: 2, vote: vote.clone(), log: log.clone() }, None));
+    for i in k..k + m {
+        log.push((i, 2));
+        ghost.push((NodeView { term: 2, vote: vote.clone(), log: log.clone() }, if i == k + m - 1 { Some(flen(&p)) } else { None }));
+    }
+    // the live node shows the end of the last ghost view (entries below the compaction point are covered by its snapshot)
+    let want = &ghost.last().unwrap().0;
+    let (wi, wt) = want.log.last().copied().unwrap_or((0, 0));
+    let cut_point = if compacted { s as usize - t } else { 0 };
+    if n.current_term() != want.term || n.last_log_index() != wi || n.last_log_term() != wt || n.log_length() + cut_point != want.log.len() {
+        return Err(format!("live node shows term {}, last log ({},{}), {} entries in memory; expected {want:?} minus a compacted prefix of {cut_point} entries", n.current_term(), n.last_log_index(), n.last_log_term(), n.log_length()));
+    }
+    drop(n);
+    let bytes = std::fs::read(&p).map_err(|e| e.to_string())?;
+    if ghost.last().unwrap().1 != Some(bytes.len()) { return Err("file length changed on drop".into()); }
+    Ok(CompactRun { bytes, base_end, ghost, compacted })
+}
+
+fn eval_compact_cut(dir: &Path, cr: &CompactRun, t: usize, cut: usize, extend: bool) -> Vec<Out> {
+    let mut o = vec![];
+    if !cr.compacted { return o; } // precondition of the family: the in-memory log was compacted (log_base_index > 0)
+    let c = dir.join("ccc.wal");
+    let scratch = dir.join("ccc_view.wal");
+    std::fs::write(&c, &cr.bytes[..cut]).expect("write copy");
+    // last acknowledged step at the time of the crash
+    let a = cr.ghost.iter().rposition(|(_, end)| end.is_some_and(|e| e <= cut)).unwrap_or(0);
+    let allowed = &cr.ghost[a..];
+    let matches = |v: &NodeView| allowed.iter().map(|(g, _)| g).find(|g| g.log == v.log && (v.term > g.term || (v.term == g.term && v.vote == g.vote))).cloned();
+    let show = |g: &[(NodeView, Option<usize>)]| g.iter().map(|(v, _)| format!("{v:?}")).collect::<Vec<_>>().join(" | ");
+    let mut first: Option<NodeView> = None;
+    for pass in 1..=2 {
+        let n = match node_cfg(&c, t) { Ok(n) => n, Err(e) => { o.push(out(OB_COMPACT, false, format!("cut {cut}/{}: restart {pass} with_wal fails: {e}", cr.bytes.len()))); return o; } };
+        let v = match node_view(&n, &c, &scratch) { Ok(v) => v, Err(e) => { o.push(out(OB_COMPACT, false, format!("cut {cut}: restart {pass}: {e}"))); return o; } };
+        let hit = matches(&v);
+        let same = first.as_ref().map_or(true, |f| *f == v);
+        o.push(out(OB_COMPACT, hit.is_some() && same, format!("cut {cut}/{} (tail starts at {}): restart {pass} shows {v:?}{}; expected one of: {}",
+            cr.bytes.len(), cr.base_end, if same { String::new() } else { format!(" but restart 1 showed {:?}", first) }, show(allowed))));
+        if hit.is_none() { return o; }
+        if pass == 1 {
+            if v.term == 2 && v.vote.as_deref() == Some("B") {
+                let r = request_vote(&n, 2, "A");
+                o.push(out(OB_COMPACT, matches!(r, Some((_, false))), format!("cut {cut}: restarted node holds its term-2 vote for B; RequestVote(2, A) -> {r:?}, must be refused")));
+            }
+            first = Some(v);
+            continue;
+        }
+        if !extend { return o; }
+        // one more entry from leader B, acknowledged by the restarted node, must survive a third restart
+        let (li, lt) = v.log.last().copied().unwrap_or((0, 0));
+        let term = v.term.max(2);
+        let r = append_from(&n, "B", term, (li, lt), vec![entry_at(term, li + 1)], 0);
+        drop(n);
+        if r != Some((term, true, li + 1)) { o.push(out(OB_COMPACT, false, format!("cut {cut}: restarted node {v:?} answers AppendEntries(term {term}, prev ({li},{lt}), entry {}) with {r:?}, expected an acknowledgement", li + 1))); return o; }
+        let mut want = NodeView { term, vote: if term == v.term { v.vote.clone() } else { None }, log: v.log.clone() };
+        want.log.push((li + 1, term));
+        let got = node_cfg(&c, t).map_err(|e| format!("with_wal fails: {e}")).and_then(|n3| node_view(&n3, &c, &scratch));
+        o.push(out(OB_COMPACT, got.as_ref() == Ok(&want), format!("cut {cut}: after restart, one more acknowledged entry and a third restart the node shows {got:?}, expected {want:?}")));
+    }
+    o
+}
+
+/// cuts after which the restarted node is also extended by one entry: record boundaries of the tail, boundary + 1, end - 1
+fn compact_extend_cuts(cr: &CompactRun) -> Vec<usize> {
+    let mut v: Vec<usize> = vec![cr.base_end];
+    for e in record_ends(&cr.bytes) { if e >= cr.base_end { v.push(e); if e + 1 <= cr.bytes.len() { v.push(e + 1); } } }
+    v.push(cr.bytes.len().saturating_sub(1).max(cr.base_end));
+    v.sort_unstable(); v.dedup();
+    v
+}
+
+fn compact_domain(thorough: bool) -> Vec<(u64, usize, u64, u64, bool)> {
+    let mut d = vec![];
+    if thorough {
+        for s in 2..=4u64 { for t in 0..=1usize { for k in s + 1..=ACKED { for m in 1..=2u64 { for voted in [false, true] { d.push((s, t, k, m, voted)); } } } } }
+    } else {
+        for t in 0..=1usize { for k in 5..=ACKED { for m in 1..=2u64 { for voted in [false, true] { d.push((4, t, k, m, voted)); } } } }
+        for s in 2..=3u64 { for t in 0..=1usize { d.push((s, t, ACKED, 1, false)); } }
+    }
+    d
+}
+
 // ---------- enumeration ----------
 
 fn scripts(nsyms: u8, maxlen: usize) -> Vec<Vec<u8>> {
@@ -384,11 +558,15 @@ pub fn run(tier: Tier, _seed: u64) -> Report {
     let mut rep = Report::new("c10_raftwal",
         &format!("replay: all scripts of length <= {maxlen} over 7 RaftWalEntry values x every byte truncation (prefix-closed: per script the cuts behind the last-but-one entry), reopen + 1 append{}; \
                   fold.term_vote: all sequences <= {tvlen} over 21 symbols (7 kinds x terms 0..=2); fold.log: all sequences <= 5 over 7 symbols; \
-                  restart: 5 pre-histories x RequestVote(term 1..=3, A) x 5 follow-up steps x every byte truncation >= end of the vote record{}",
+                  restart: 5 pre-histories x RequestVote(term 1..=3, A) x 5 follow-up steps x every byte truncation >= end of the vote record{}; \
+                  compaction + conflict: entries 1..=6 acknowledged, in-memory log compacted (snapshot at s, trailing t), [vote for B,] AppendEntries of term 2 conflicting at k with m new entries, \
+                  {} x every byte truncation of the WAL tail, 2 restarts (+ 1 more acknowledged entry and a 3rd restart at record boundaries, boundary+1, end-1)",
                  if thorough { "; 3-round WAL crash chains (4 entries x 8 cut classes per round)" } else { "" },
-                 if thorough { "; 3-round vote chains (terms 1..=2 x {A,B} x 5 cut classes per round)" } else { "" }),
+                 if thorough { "; 3-round vote chains (terms 1..=2 x {A,B} x 5 cut classes per round)" } else { "" },
+                 if thorough { "s in 2..=4, t in 0..=1, k in s+1..=6, m in 1..=2, voted no|yes" } else { "(s=4, t in 0..=1, k in 5..=6, m in 1..=2, voted no|yes) and (s in 2..=3, t in 0..=1, k=6, m=1, not voted)" }),
         true,
-        &["RaftWal::open", "RaftWal::append", "RaftWal::replay", "RaftRecoveryState::from_entries", "RaftRecoveryState::from_wal", "RaftNode::with_wal", "RaftNode::handle_message(RequestVote)", "RaftNode::handle_message(AppendEntries)"]);
+        &["RaftWal::open", "RaftWal::append", "RaftWal::replay", "RaftRecoveryState::from_entries", "RaftRecoveryState::from_wal", "RaftNode::with_wal", "RaftNode::handle_message(RequestVote)", "RaftNode::handle_message(AppendEntries)",
+          "RaftNode::append_leader_entries", "RaftNode::finalize_to", "RaftNode::create_snapshot", "RaftNode::truncate_log"]);
     rep.declare(OB_PREFIX, "RaftWal::replay_with_validation");
     rep.declare(OB_WF, "RaftWal::open_with_config");
     rep.declare(OB_TV, "RaftRecoveryState::from_entries");
@@ -396,6 +574,7 @@ pub fn run(tier: Tier, _seed: u64) -> Report {
     rep.declare(OB_PERSIST, "RaftNode::handle_request_vote with with_wal");
     rep.declare(OB_RESTART, "RaftNode::with_wal");
     rep.declare(OB_TERMDUR, "RaftNode::handle_request_vote with with_wal");
+    rep.declare(OB_COMPACT, "RaftNode::append_leader_entries / truncate_log / with_wal");
     let dir = crate::fw::tmpdir("c10_raftwal");
 
     for script in scripts(7, maxlen) {
@@ -470,6 +649,21 @@ pub fn run(tier: Tier, _seed: u64) -> Report {
         let x = eval_term_durable(&dir, own_log, rv_term, rel, emb);
         record(&mut rep, vec![x], &|| json!({"term_durable": [own_log, rv_term, rel, emb]}));
     } } } }
+    // restart after compaction + conflict truncation
+    for (s, t, k, m, voted) in compact_domain(thorough) {
+        let case = |cut: usize| json!({"compact": {"snap": s, "trailing": t, "conflict": k, "new": m, "voted": voted}, "cut": cut});
+        let cr = match run_compact(&dir, s, t, k, m, voted) {
+            Ok(c) => c,
+            Err(e) => { rep.check(OB_COMPACT, false, &|| case(0), &|| e.clone()); continue; },
+        };
+        let ext = compact_extend_cuts(&cr);
+        for cut in cr.base_end..=cr.bytes.len() {
+            rep.eval(cr.compacted);
+            let outs = eval_compact_cut(&dir, &cr, t, cut, ext.contains(&cut));
+            record(&mut rep, outs, &|| case(cut));
+        }
+    }
+    rep.sample(json!({"compact": {"snap": 4, "trailing": 1, "conflict": 6, "new": 1, "voted": false}, "cut": 100_000}));
     if thorough {
         let opts: Vec<(u64, u8, u8)> = (1..=2u64).flat_map(|t| (0..2u8).flat_map(move |c| (0..5u8).map(move |k| (t, c, k)))).collect();
         for &a in &opts { for &b in &opts { for &c in &opts {
@@ -500,6 +694,12 @@ pub fn replay(ob: &str, case: &Value) -> Result<String, String> {
     } else if let Some(r) = case.get("vote_chain") {
         let rounds: Vec<(u64, u8, u8)> = r.as_array().map(|a| a.iter().map(|x| (x[0].as_u64().unwrap_or(0), x[1].as_u64().unwrap_or(0) as u8, x[2].as_u64().unwrap_or(0) as u8)).collect()).unwrap_or_default();
         vec![eval_vote_chain(&dir, &rounds)]
+    } else if let Some(c) = case.get("compact") {
+        let (s, t, k, m, voted) = (c["snap"].as_u64().unwrap_or(4), c["trailing"].as_u64().unwrap_or(0) as usize, c["conflict"].as_u64().unwrap_or(6), c["new"].as_u64().unwrap_or(1), c["voted"].as_bool().unwrap_or(false));
+        match run_compact(&dir, s, t, k, m, voted) {
+            Err(e) => vec![out(OB_COMPACT, false, e)],
+            Ok(cr) => { let cut = (case["cut"].as_u64().unwrap_or(0) as usize).clamp(cr.base_end, cr.bytes.len()); eval_compact_cut(&dir, &cr, t, cut, true) },
+        }
     } else if case.get("pre").is_some() {
         let (pre, t, post) = (case["pre"].as_u64().unwrap_or(0) as u8, case["term"].as_u64().unwrap_or(1), case["post"].as_u64().unwrap_or(0) as u8);
         match run_vote(&dir, pre, t, post) {
